@@ -1,7 +1,7 @@
 (* C08 - gcno/gcda counts agree with the toolchain's gcov.  What is proved is about the counting algorithm
    (model of reader.rs); the agreement with llvm-cov's line attribution is established differentially by the check
    (llvm-cov gcov vs Gcno::compute vs this model, on compiled generated programs).  Property theorems only. *)
-From Grcov Require Import Model.GcnoCount Model.GcnoFlow Proofs.GcnoBase Proofs.GcnoShape Proofs.GcnoStruct Proofs.GcnoExec Proofs.GcnoFlow.
+From Grcov Require Import Model.GcnoCount Model.GcnoFlow Proofs.GcnoBase Proofs.GcnoShape Proofs.GcnoStruct Proofs.GcnoExec Proofs.GcnoFlow Proofs.GcnoRecover.
 
 (* In an executed function, a line carried by exactly one block gets that block's execution count. *)
 Theorem C08_single_block_line : forall f line b blk ex fl,
@@ -52,3 +52,36 @@ Theorem C08_conserving_all : forall nb edges,
   Forall (fun e => e_src e < N.of_nat nb /\ e_dst e < N.of_nat nb) edges -> conserving nb edges = true ->
   forall v, net edges v = 0%Z.
 Proof. exact conserving_all. Qed.
+
+(* Flow recovery.  tree_graph version f = the blocks and arcs count_on_tree works on (the function's graph with the
+   virtual sink->source ON_TREE arc).  rooted_b = executable check of a rooted-forest witness for its ON_TREE arcs
+   (parent arc / parent block, rank and root of every block; found by find_rooted and evaluated by the check on every
+   compiled program).  For EVERY assignment c of counts to the arcs that agrees with the measured (not ON_TREE)
+   counters and is conserving at every block (sum over the block's incoming list = sum over its outgoing list, below
+   2^64), count_on_tree leaves counter e = c e on every arc: the algorithm computes the flow that C08_flow_unique
+   shows to be the only one. *)
+Theorem C08_flow_recovery : forall version f f' blocks edges parl rankl rootl (c : N -> N),
+  2 <= lenN (f_blocks f) ->
+  tree_graph version f = Ok (blocks, edges) ->
+  rooted_b blocks edges parl rankl rootl = true ->
+  (forall id e, nthN edges id = Some e -> is_on_tree e = false -> e_counter e = c id) ->
+  (forall b blk, nthN blocks b = Some blk -> sumc c (b_src blk) = sumc c (b_dst blk)) ->
+  (forall b blk, nthN blocks b = Some blk -> sumc c (b_src blk) < two64) ->
+  count_on_tree wrap64 version f = Ok f' ->
+  map eshape (f_edges f') = map eshape edges /\ forall id e, nthN (f_edges f') id = Some e -> e_counter e = c id.
+Proof. intros version f f' blocks edges parl rankl rootl c. exact (flow_recovery wrap64 version f f' blocks edges parl rankl rootl c wrap64_small). Qed.
+(* ... and counter b = the sum of the counts of ALL arcs leaving b, when before counting every block counter is the
+   sum of its measured outgoing arcs (blocks_consistent: the state read_gcda leaves, evaluated by the check) and the
+   out-flow of every block fits in 64 bits. *)
+Theorem C08_flow_recovery_blocks : forall version f f' blocks edges parl rankl rootl (c : N -> N),
+  2 <= lenN (f_blocks f) ->
+  tree_graph version f = Ok (blocks, edges) ->
+  rooted_b blocks edges parl rankl rootl = true ->
+  (forall id e, nthN edges id = Some e -> is_on_tree e = false -> e_counter e = c id) ->
+  (forall b blk, nthN blocks b = Some blk -> sumc c (b_src blk) = sumc c (b_dst blk)) ->
+  (forall b blk, nthN blocks b = Some blk -> sumc c (b_src blk) < two64) ->
+  blocks_consistent blocks edges = true ->
+  count_on_tree wrap64 version f = Ok f' ->
+  (forall b, osum any_arc (f_edges f') b < two64) ->
+  forall b blk', nthN (f_blocks f') b = Some blk' -> b_counter blk' = osum any_arc (f_edges f') b.
+Proof. intros version f f' blocks edges parl rankl rootl c. exact (flow_recovery_blocks wrap64 version f f' blocks edges parl rankl rootl c wrap64_small). Qed.
